@@ -18,7 +18,13 @@
 //          o = no error, n = ErrStashBufferNotSet, e = "stash buffer may be closed" (nothing stashed), ? = other;
 //          then `;st=<pid.StashSize()>`
 //
-// Quiescence = counting mailbox wrapper (completed == enqueued), never a sleep.
+// Quiescence = the dispatcher's own observation: the mailbox wrapper saw a Dequeue that found the
+// mailbox empty after the last send (never a sleep).  Watchdogs, so that a broken stash cannot stall
+// the run: `RUNAWAY <n> <events>` when more user deliveries happen than messages were sent plus Stash
+// calls were made (deterministic, count based); `HANG` / `HANG gate <i>` when the actor does not reach
+// the gate / does not go idle within 5 s; after 2 such cases every further case answers `HANG-skipped`;
+// `LOST gate <i>` when the dispatcher found the mailbox empty although gate i was enqueued and never delivered
+// (deterministic); `G<i>dup` in the event list when a gate is delivered twice.
 package main
 
 import (
@@ -36,13 +42,18 @@ import (
 	"github.com/tochemey/goakt/v4/log"
 )
 
+// countingMailbox delegates to the real UnboundedMailbox. `idle` is true exactly when the last
+// operation on it was a Dequeue that found it empty: once the harness has stopped sending, that is
+// the dispatcher's own "nothing left" observation, independent of any counting (a broken stash
+// may link messages into the mailbox behind the wrapper's back).
 type countingMailbox struct {
-	inner     *actor.UnboundedMailbox
-	mu        sync.Mutex
-	cond      *sync.Cond
-	enq       int
-	handed    int
-	completed int
+	inner   *actor.UnboundedMailbox
+	mu      sync.Mutex
+	cond    *sync.Cond
+	enq     int
+	handed  int
+	idle    bool
+	runaway bool
 }
 
 func newCountingMailbox() *countingMailbox {
@@ -53,17 +64,20 @@ func newCountingMailbox() *countingMailbox {
 
 func (m *countingMailbox) Enqueue(c *actor.ReceiveContext) error {
 	m.mu.Lock()
+	defer m.mu.Unlock()
 	m.enq++
-	m.mu.Unlock()
+	m.idle = false
 	return m.inner.Enqueue(c)
 }
 
 func (m *countingMailbox) Dequeue() *actor.ReceiveContext {
 	m.mu.Lock()
-	m.completed = m.handed
 	r := m.inner.Dequeue()
 	if r != nil {
 		m.handed++
+		m.idle = false
+	} else {
+		m.idle = true
 	}
 	m.cond.Broadcast()
 	m.mu.Unlock()
@@ -73,19 +87,38 @@ func (m *countingMailbox) IsEmpty() bool { return m.inner.IsEmpty() }
 func (m *countingMailbox) Len() int64    { return m.inner.Len() }
 func (m *countingMailbox) Dispose()      { m.inner.Dispose() }
 
-func (m *countingMailbox) waitQuiet(d time.Duration) bool {
+func (m *countingMailbox) signalRunaway() {
+	m.mu.Lock()
+	m.runaway = true
+	m.cond.Broadcast()
+	m.mu.Unlock()
+}
+
+const (
+	quiet = iota
+	runaway
+	hang
+)
+
+// waitQuiet blocks until the dispatcher found the mailbox empty, the actor reported a runaway
+// delivery count, or the watchdog expires.
+func (m *countingMailbox) waitQuiet(d time.Duration) int {
 	deadline := time.Now().Add(d)
 	timer := time.AfterFunc(d, func() { m.mu.Lock(); m.cond.Broadcast(); m.mu.Unlock() })
 	defer timer.Stop()
 	m.mu.Lock()
 	defer m.mu.Unlock()
-	for m.completed != m.enq {
-		if time.Now().After(deadline) {
-			return false
+	for {
+		switch {
+		case m.runaway:
+			return runaway
+		case m.idle:
+			return quiet
+		case time.Now().After(deadline):
+			return hang
 		}
 		m.cond.Wait()
 	}
-	return true
 }
 
 type user struct{ id int }
@@ -95,8 +128,11 @@ type stasher struct {
 	decisions []string
 	next      int
 	events    []string
-	entered   chan int
+	entered   int // highest gate whose handler was entered (guarded by mb.mu)
 	release   chan struct{}
+	mb        *countingMailbox
+	bound     int // deliveries a correct stash can cause: messages sent + successful-or-not Stash calls
+	count     int
 }
 
 func (a *stasher) PreStart(*actor.Context) error { return nil }
@@ -117,9 +153,30 @@ func code(err error) byte {
 func (a *stasher) Receive(ctx *actor.ReceiveContext) {
 	switch m := ctx.Message().(type) {
 	case *gate:
-		a.entered <- m.idx
+		a.mb.mu.Lock()
+		dup := m.idx <= a.entered
+		if !dup {
+			a.entered = m.idx
+		}
+		a.mb.cond.Broadcast()
+		a.mb.mu.Unlock()
+		if dup {
+			// a gate delivered twice (nobody sent it twice): report it, do not park again
+			a.events = append(a.events, "G"+strconv.Itoa(m.idx)+"dup")
+			return
+		}
 		<-a.release
 	case *user:
+		a.count++
+		if a.count > a.bound {
+			// more deliveries than sends + Stash calls: something re-delivers on its own.
+			// Report once, then stay passive (no events, no stash calls) so a loop that
+			// feeds on our calls dies out.
+			if a.count == a.bound+1 {
+				a.mb.signalRunaway()
+			}
+			return
+		}
 		d := "h"
 		if a.next < len(a.decisions) {
 			d = a.decisions[a.next]
@@ -150,7 +207,35 @@ func (a *stasher) Receive(ctx *actor.ReceiveContext) {
 var (
 	sys     actor.ActorSystem
 	counter int
+	hangs   int // cases that ended in HANG / RUNAWAY; after maxHangs the rest is skipped
 )
+
+const (
+	maxHangs = 2
+	watchdog = 5 * time.Second
+)
+
+// stashSize guards pid.StashSize(): it walks the stash chain, which a broken stash can turn into a cycle.
+func stashSize(pid *actor.PID) string {
+	ch := make(chan uint64, 1)
+	go func() { ch <- pid.StashSize() }()
+	select {
+	case n := <-ch:
+		return strconv.FormatUint(n, 10)
+	case <-time.After(2 * time.Second):
+		hangs++
+		return "LOOP"
+	}
+}
+
+func shutdown(pid *actor.PID) {
+	done := make(chan struct{})
+	go func() { _ = pid.Shutdown(context.Background()); close(done) }()
+	select {
+	case <-done:
+	case <-time.After(2 * time.Second):
+	}
+}
 
 func parse(line string) (buf bool, batches [][]int, decisions []string, ok bool) {
 	f := vlib.Fields(line)
@@ -197,10 +282,19 @@ func handle(line string) string {
 	if !ok {
 		return "bad-case"
 	}
+	if hangs >= maxHangs {
+		return "HANG-skipped"
+	}
 	ctx := context.Background()
-	a := &stasher{decisions: decisions, entered: make(chan int, 1), release: make(chan struct{}, 1)}
 	counter++
 	mb := newCountingMailbox()
+	a := &stasher{decisions: decisions, release: make(chan struct{}, 1), mb: mb, bound: 1}
+	for _, b := range batches {
+		a.bound += len(b)
+	}
+	for _, d := range decisions {
+		a.bound += strings.Count(d, "S")
+	}
 	opts := []actor.SpawnOption{actor.WithMailbox(mb), actor.WithLongLived()}
 	if buf {
 		opts = append(opts, actor.WithStashing())
@@ -209,27 +303,57 @@ func handle(line string) string {
 	if err != nil {
 		return "spawn-error " + vlib.Canon(err.Error())
 	}
-	defer func() { _ = pid.Shutdown(ctx) }()
+	defer shutdown(pid)
 	tell := func(m any) string {
 		if err := actor.Tell(ctx, pid, m); err != nil {
 			return "tell-error " + vlib.Canon(err.Error())
 		}
 		return ""
 	}
-	waitGate := func(i int) bool {
-		select {
-		case got := <-a.entered:
-			return got == i
-		case <-time.After(20 * time.Second):
-			return false
+	// waitGate: the actor entered gate i (quiet), or the dispatcher found the mailbox empty although
+	// gate i was enqueued and never delivered (lost — deterministic, no timeout), or the watchdog expired.
+	const lost = 99
+	waitGate := func(i int) int {
+		deadline := time.Now().Add(watchdog)
+		timer := time.AfterFunc(watchdog, func() { mb.mu.Lock(); mb.cond.Broadcast(); mb.mu.Unlock() })
+		defer timer.Stop()
+		mb.mu.Lock()
+		defer mb.mu.Unlock()
+		for {
+			switch {
+			case a.entered >= i:
+				return quiet
+			case mb.runaway:
+				return runaway
+			case mb.idle:
+				return lost
+			case time.Now().After(deadline):
+				return hang
+			}
+			mb.cond.Wait()
 		}
+	}
+	gateFail := func(i, r int) string {
+		select {
+		case a.release <- struct{}{}:
+		default:
+		}
+		switch r {
+		case lost:
+			return "LOST gate " + strconv.Itoa(i)
+		case runaway:
+			hangs++
+			return fmt.Sprintf("RUNAWAY %d", a.bound+1)
+		}
+		hangs++
+		return "HANG gate " + strconv.Itoa(i)
 	}
 	if len(batches) > 0 {
 		if e := tell(&gate{idx: 1}); e != "" {
 			return e
 		}
-		if !waitGate(1) {
-			return "TIMEOUT gate 1"
+		if r := waitGate(1); r != quiet {
+			return gateFail(1, r)
 		}
 		for i, b := range batches {
 			for _, id := range b {
@@ -246,17 +370,27 @@ func handle(line string) string {
 				}
 			}
 			a.release <- struct{}{}
-			if !last && !waitGate(i+2) {
-				return "TIMEOUT gate " + strconv.Itoa(i+2)
+			if !last {
+				if r := waitGate(i + 2); r != quiet {
+					return gateFail(i+2, r)
+				}
 			}
 		}
 	}
-	if !mb.waitQuiet(20 * time.Second) {
-		return "TIMEOUT"
+	switch mb.waitQuiet(watchdog) {
+	case hang:
+		hangs++
+		return "HANG"
+	case runaway:
+		hangs++
+		mb.mu.Lock()
+		defer mb.mu.Unlock()
+		return fmt.Sprintf("RUNAWAY %d %s", a.bound+1, strings.Join(a.events, " "))
 	}
+	st := stashSize(pid)
 	mb.mu.Lock()
 	defer mb.mu.Unlock()
-	return fmt.Sprintf("%s;st=%d", strings.Join(a.events, " "), pid.StashSize())
+	return fmt.Sprintf("%s;st=%s", strings.Join(a.events, " "), st)
 }
 
 func main() {
